@@ -19,6 +19,8 @@ COMPLETE = "OrqModel.Properties.ComposeComplete"
 RETRY = "OrqModel.Properties.Retry"
 QUERY = "OrqModel.Properties.Query"
 FROZEN = "OrqModel.Properties.Frozen"
+JUSTIFIED = "OrqModel.Properties.Justified"
+ERRLOG = "OrqModel.Properties.ErrLog"
 
 TRUSTED = [
     "Lean 4.33 kernel (thorough tier: re-checked by leanchecker)",
@@ -34,10 +36,11 @@ PROPS = {
     "C01": dict(
         title="every task execution justified, exactly once",
         theorems={NEXT: ["C01_offer_from_staged", "C01_no_offer_unless_running_or_remediation"], JOIN: ["C07_ready_iff_satisfied"], HISTORY: ["C18_record_core_fixed"],
-                  STATUS: ["tbl_succeeded_doors_task", "C03_fresh_start_statuses"]},
+                  STATUS: ["tbl_succeeded_doors_task", "C03_fresh_start_statuses"],
+                  JUSTIFIED: ["C01_offers_have_completed_predecessors", "C01_predecessors_completed_and_decided"]},
         keys=["status", "sequence", "staged", "tasks"], offers="ids",
         prof=dict(p_items=0.0, p_retry=0.0, p_badexpr=0.0, p_join=0.9, p_join_count=0.1, p_loop=0.05, p_parallel_edge=0.05, p_cond_ctx=0.3, p_template=0.3, templates=[7, 7, 0, 5, 6]), hist=dict(p_fail=0.3, fixed_outcomes=True, p_lazy_start=0.25, p_pause=0.25, p_early_resume=0.6),
-        monitor="C01", unproven=["global multiset equality with the prescribed executions (C01_global) is not proved; search only"],
+        monitor="C01", unproven=["that the recorded decision of a listed predecessor is true for the very transition (proved: the predecessor is a completed, decided record and stays so); global multiset equality with the prescribed executions (C01_global); search only"],
     ),
     "C02": dict(
         title="reported workflow status is truthful",
@@ -110,7 +113,7 @@ PROPS = {
     ),
     "C11": dict(
         title="expression errors contained",
-        theorems={ERRORS: ["C11_next_never_raises_expr", "C11_update_never_raises_expr", "C11_render_never_raises_expr", "C11_request_never_raises_expr"], STATUS: ["tbl_failed_request_total"], SITES: ["evalSites_guarded", "evalSites_nonempty"]},
+        theorems={ERRORS: ["C11_next_never_raises_expr", "C11_update_never_raises_expr", "C11_render_never_raises_expr", "C11_request_never_raises_expr"], STATUS: ["tbl_failed_request_total"], SITES: ["evalSites_guarded", "evalSites_nonempty"], ERRLOG: ["C11_errors_persist"]},
         keys=["status", "errors", "staged"], offers="ids",
         prof=dict(p_badexpr=0.8), hist=dict(p_pause=0.05, p_cancel=0.1, p_task_pause=0.15, p_first_pending=0.1), monitor="C11",
         unproven=["'recorded and failed' postcondition proved only as: an error entry is logged before the failed request (C11_*), not as a full postcondition"],
@@ -163,7 +166,7 @@ PROPS = {
         keys=["contexts", "routes", "sequence"], offers=None,
         prof=dict(p_items=0.25, p_join=0.7, p_loop=0.3, p_template=0.3, templates=[8, 8, 2, 0, 3]),
         hist=dict(p_fail=0.3, p_persist=0.15, p_rerun=0.3, p_dup_report=0.3, p_lazy_start=0.25),
-        monitor="C18", unproven=["freezing of status/next after the decisions not proved; search only"],
+        monitor="C18", unproven=["that the values of recorded decisions never change (proved: a decided record keeps its status and stays decided); search only"],
     ),
     "C19": dict(
         title="conducting deterministic; next is a pure query",
